@@ -285,10 +285,14 @@ Definition cluster_waveforms (d : dset) (mm : list (list Z)) : option (list (lis
   omap (fun p => cw_row d (fst p) (snd p)) (combine (zrange 0 (length mm)) mm).
 
 (* ---------- the branch of _load_data ---------- *)
+(* np.setdiff1d(np.arange(n_clusters, dtype=np.int64), spike_clusters): the ids of range(n) that no spike carries,
+   increasing (the identity branch AS REPAIRED on branch fix-c14b; before the repair: nan_idx = []) *)
+Definition setdiff_arange (n : nat) (sc : list Z) : list Z := filter (fun c => negb (memZ c sc)) (zrange 0 n).
+
 Record loaded := mkld {
   l_curated : bool;
   l_mm : list (list Z);                 (* merge_map: entry c = templates of cluster c; [] when not curated ({}) *)
-  l_nan : list Z;                       (* nan_idx *)
+  l_nan : list Z;                       (* nan_idx: get_merge_map's when curated, the setdiff1d otherwise *)
   l_data : list (list (list rat));      (* sparse_clusters.data *)
   l_ncl : Z                             (* n_clusters *)
 }.
@@ -299,7 +303,8 @@ Definition load (d : dset) : option loaded :=
   | [] => None                                                       (* no spike: the loader fails *)
   | x :: r =>
       if zlist_eqb (d_sc d) (d_st d)                                 (* np.all(spike_clusters == spike_templates) *)
-      then Some (mkld false [] [] (map (map (map rat_of)) (d_tmpl d)) (n_templates d))
+      then Some (mkld false [] (setdiff_arange (length (d_tmpl d)) (d_sc d))
+                      (map (map (map rat_of)) (d_tmpl d)) (n_templates d))
       else match merge_map (d_st d) (d_sc d) with
            | None => None
            | Some mm =>
